@@ -64,6 +64,24 @@ func genArchiveTree(rt *rapid.T) Tree {
 		sz := []int{0, 1, 10, 300, 5000}[(i*7)%5]
 		t[fmt.Sprintf("%s/small%03d", d, i)] = &Entry{Kind: KFile, Data: Bytes(uint64(i)*31+5, sz)}
 	}
+	if rapid.IntRange(0, 9).Draw(rt, "holes") == 0 {
+		// files with long runs of zeros (disk images, preallocated databases): whole MiB of them, in
+		// the middle and at the very end, sizes on and next to MiB multiples
+		mk := func(pre, zeros, post int, seed uint64) []byte {
+			return append(append(Bytes(seed, pre), make([]byte, zeros)...), Bytes(seed+1, post)...)
+		}
+		switch rapid.IntRange(0, 3).Draw(rt, "holekind") {
+		case 0:
+			t["img/zeros.bin"] = &Entry{Kind: KFile, Data: make([]byte, rapid.SampledFrom([]int{MiB, 2 * MiB, MiB + 1, MiB - 1}).Draw(rt, "zerosize"))}
+		case 1:
+			t["img/tailhole.bin"] = &Entry{Kind: KFile, Data: mk(MiB, rapid.SampledFrom([]int{MiB, 2 * MiB}).Draw(rt, "tailhole"), 0, 5)}
+		case 2:
+			t["img/midhole.bin"] = &Entry{Kind: KFile, Data: mk(MiB, MiB, 1000, 6)}
+		default:
+			t["img/tailhole2.bin"] = &Entry{Kind: KFile, Data: mk(300, 2*MiB-300, 0, 7)}
+		}
+		Ev.Probe("archive_with_files_holding_MiB_runs_of_zeros")
+	}
 	if rapid.IntRange(0, 3).Draw(rt, "siblingnames") == 0 {
 		// entries whose names differ by a suffix that programs like to use for their own temporary
 		// or backup files
@@ -343,48 +361,51 @@ func TestC19(t *testing.T) {
 		for n, i := range entryIndex {
 			entryName[i] = n
 		}
-		verified := -1 // every entry up to here was found complete on disk when the resume file first named it
-		s.Invariant = func(step int) string {
-			b, err := os.ReadFile(resume)
-			if err != nil || len(b) == 0 {
+		// (verified: every entry up to there was found complete on disk when the resume file first named it)
+		mkInv := func(out, resume string, verified int) func(int) string {
+			return func(step int) string {
+				b, err := os.ReadFile(resume)
+				if err != nil || len(b) == 0 {
+					return ""
+				}
+				r, perr := strconv.ParseInt(string(b), 10, 64)
+				if perr != nil {
+					return ""
+				}
+				if int(r) >= len(kinds) {
+					return fmt.Sprintf("resume file reads %q, the archive has %d entries", string(b), len(kinds))
+				}
+				for i := verified + 1; i <= int(r); i++ {
+					want, ok := tree[entryName[i]]
+					if !ok {
+						continue
+					}
+					full := filepath.Join(out, filepath.FromSlash(entryName[i]))
+					fi, err := os.Lstat(full)
+					bad := ""
+					switch {
+					case err != nil:
+						bad = "is not there"
+					case want.Kind == KDir && !fi.IsDir():
+						bad = "is not a directory"
+					case want.Kind == KLink:
+						if d, lerr := os.Readlink(full); lerr != nil || d != want.Dest {
+							bad = "is not the symlink it should be"
+						}
+					case want.Kind == KFile:
+						if got, rerr := os.ReadFile(full); rerr != nil || !bytes.Equal(got, want.Data) {
+							bad = fmt.Sprintf("is incomplete (%d of %d bytes)", len(got), len(want.Data))
+						}
+					}
+					if bad != "" {
+						return fmt.Sprintf("resume file reads %q but entry %d (%s) %s", string(b), i, entryName[i], bad)
+					}
+					verified = i
+				}
 				return ""
 			}
-			r, perr := strconv.ParseInt(string(b), 10, 64)
-			if perr != nil {
-				return ""
-			}
-			if int(r) >= len(kinds) {
-				return fmt.Sprintf("resume file reads %q, the archive has %d entries", string(b), len(kinds))
-			}
-			for i := verified + 1; i <= int(r); i++ {
-				want, ok := tree[entryName[i]]
-				if !ok {
-					continue
-				}
-				full := filepath.Join(out, filepath.FromSlash(entryName[i]))
-				fi, err := os.Lstat(full)
-				bad := ""
-				switch {
-				case err != nil:
-					bad = "is not there"
-				case want.Kind == KDir && !fi.IsDir():
-					bad = "is not a directory"
-				case want.Kind == KLink:
-					if d, lerr := os.Readlink(full); lerr != nil || d != want.Dest {
-						bad = "is not the symlink it should be"
-					}
-				case want.Kind == KFile:
-					if got, rerr := os.ReadFile(full); rerr != nil || !bytes.Equal(got, want.Data) {
-						bad = fmt.Sprintf("is incomplete (%d of %d bytes)", len(got), len(want.Data))
-					}
-				}
-				if bad != "" {
-					return fmt.Sprintf("resume file reads %q but entry %d (%s) %s", string(b), i, entryName[i], bad)
-				}
-				verified = i
-			}
-			return ""
 		}
+		s.Invariant = mkInv(out, resume, -1)
 		// sometimes the source fails while one entry's data is read (a dropped connection): ExtractZip
 		// returns that error, and the caller starts over at once, in the same process, with the same
 		// resume file and a source that works. Whatever the first call still has in flight must not
@@ -556,7 +577,35 @@ func TestC19(t *testing.T) {
 			var res2 *archiver.ExtractResult
 			var err2 error
 			conc2 := rapid.SampledFrom([]int{1, 2, 4, 8}).Draw(rt, "concurrency2")
-			if p := Recover(func() {
+			if !wide && rapid.Bool().Draw(rt, "scheduledrestart") {
+				// the restarted run is scheduled, too, and its resume file is held to the same invariant
+				// at every step: it may be interrupted in turn
+				s2 := &Sched{Spec: drawSched(rt), MaxSteps: 400000}
+				s2.Invariant = mkInv(out2, resume2, lastDone)
+				var p2 string
+				s2.Run(t, func() {
+					p2 = Recover(func() {
+						res2, err2 = archiver.ExtractZip(&simReaderAt{b: zb, yield: s2.Yield}, int64(len(zb)), out2, archiver.ExtractSettings{Consumer: Quiet(), Concurrency: conc2, ResumeFrom: resume2,
+							OnEntryDone: func(string) { s2.Yield("entry-done") }})
+					})
+				})
+				if s2.BudgetExceeded {
+					return
+				}
+				if s2.Stuck {
+					Violation(rt, "C19/stuck", "restarted ExtractZip never returns (%s, resume file %q, concurrency %d)\n%s", setup, string(rb), conc2, s2.StuckStacks)
+					return
+				}
+				if s2.InvariantFail != "" {
+					Violation(rt, "C19/resume-index-ahead", "in the restarted run (resume file %q, concurrency %d): %s (%s)\nschedule tail:\n%s", string(rb), conc2, s2.InvariantFail, setup, joinLines(tail(s2.Log, 30), 30))
+					return
+				}
+				if p2 != "" || s2.Panic != "" || err2 != nil {
+					Violation(rt, "C19/resume-failed", "restarted ExtractZip: %v %s%s (%s, resume file %q)", err2, p2, s2.Panic, setup, string(rb))
+					return
+				}
+				Ev.Probe("restarted_run_scheduled_with_resume_invariant")
+			} else if p := Recover(func() {
 				res2, err2 = archiver.ExtractZip(&simReaderAt{b: zb}, int64(len(zb)), out2, archiver.ExtractSettings{Consumer: Quiet(), Concurrency: conc2, ResumeFrom: resume2})
 			}); p != "" || err2 != nil {
 				Violation(rt, "C19/resume-failed", "restarted ExtractZip: %v %s (%s, resume file %q)", err2, p, setup, string(rb))
